@@ -6,4 +6,6 @@ import "verifharness/core"
 func registerAll() {
 	core.Register("C08", execC08)
 	core.Register("C01", execC01)
+	core.Register("C02", execC02)
+	core.Register("C20", execC20)
 }
